@@ -198,3 +198,25 @@ CORPUS += [
 CORPUS += [
     V("C18", "pdp-extra-row-kept-with-a-depot-sampler", _PG, "            locs = self.loc_sampler.sample((*batch_size, self.num_loc, 2))", "            locs = self.loc_sampler.sample((*batch_size, self.num_loc + 1, 2))", "C18.s"),
 ]
+
+# ---- rules added after the fifth seeding round
+_OPE = R + "op/env.py"
+_N2S = "rl4co/models/zoo/n2s/policy.py"
+_TRF = "rl4co/data/transforms.py"
+_FPP = S_ + "fjsp/parser.py"
+CORPUS += [
+    V("C01", "cvrp-step-clamps-with-the-configured-size", _CV, '        n_loc = td["demand"].size(-1)  # Excludes depot', "        n_loc = self.generator.num_loc  # Excludes depot", "C01.x"),
+    V("C01", "mtsp-agent-counter-starts-at-one", _MTS, "agent_idx = torch.zeros((*batch_size,), dtype=torch.int64, device=device)", "agent_idx = torch.ones((*batch_size,), dtype=torch.int64, device=device)", "C01.s"),
+    V("C05", "mtsp-agent-counter-starts-at-one-c05", _MTS, "agent_idx = torch.zeros((*batch_size,), dtype=torch.int64, device=device)", "agent_idx = torch.ones((*batch_size,), dtype=torch.int64, device=device)", "C05.j"),
+    V("C05", "op-return-leg-budgeted-twice", _OPE, '            td["tour_length"][..., None] + (td["locs"] - current_loc).norm(p=2, dim=-1)\n            > td["max_length"]', '            td["tour_length"][..., None] + (td["locs"] - current_loc).norm(p=2, dim=-1) + (td["locs"] - td["locs"][..., 0:1, :]).norm(p=2, dim=-1)\n            > td["max_length"]', "C05.d"),
+    V("C03", "mdcpdp-step-legs-euclidean", _MD, "        current_step_length = self.get_distance(prev_loc, curr_loc).unsqueeze(-1)", "        current_step_length = (curr_loc - prev_loc).norm(p=2, dim=-1).unsqueeze(-1)", "C03.h"),
+    V("C09", "n2s-mask-called-with-the-pair-index", _N2S, "env.get_mask(action_removal + 1, td)", 'env.get_mask(td["action"], td)', "C09.l"),
+    V("C09", "eq-n2s-mask-argument-commuted", _N2S, "env.get_mask(action_removal + 1, td)", "env.get_mask(1 + action_removal, td)", None),
+    V("C09", "step-to-solution-shortcut", _BASE, "        return self._step(td, solution_to=solution)", '        if solution is td["rec_best"]:\n            td.update({"rec_current": solution.clone()})\n            return td\n        return self._step(td, solution_to=solution)', "C09.m"),
+    V("C15", "dihedral-copies-clamped", _TRF, "    return aug_xy\n", "    return aug_xy.clamp_(min=0.0, max=1.0)\n", "C15.a"),
+    V("C15", "multistart-eval-trims-trailing-zeros", _EV, "        actions = gather_by_index(actions, max_idxs, dim=1)\n        return actions, rewards", "        actions = gather_by_index(actions, max_idxs, dim=1)\n        actions = actions[:, : actions.size(-1) - 1]\n        return actions, rewards", "C15.i"),
+    V("C19", "fjsp-file-names-not-padded", _FPP, "    file_name = f\"{str(id+1).rjust(4, '0')}_{num_jobs}j_{num_machines}m.txt\"", '    file_name = f"{id + 1}_{num_jobs}j_{num_machines}m.txt"', "C19.i"),
+    V("C19", "eq-fjsp-file-names-padded-by-format", _FPP, "    file_name = f\"{str(id+1).rjust(4, '0')}_{num_jobs}j_{num_machines}m.txt\"", '    file_name = f"{id + 1:04d}_{num_jobs}j_{num_machines}m.txt"', None),
+    V("C19", "multistart-prefix-added-twice", _RFF, '        elif "multistart" in attr_get:\n            return\n        else:\n            setattr(self.policy, attribute, f"multistart_{attr_get}")', '        setattr(self.policy, attribute, f"multistart_{attr_get}")', "C19.i"),
+    V("C19", "explicit-file-name-joined-again", _BASE, '        f = getattr(self, f"{phase}_file") if filename is None else filename', '        f = getattr(self, f"{phase}_file") if filename is None else pjoin(self.data_dir, filename)', "C19.i"),
+]
